@@ -6,6 +6,8 @@ import (
 	"flag"
 	"fmt"
 	"net/textproto"
+	"os"
+	"path/filepath"
 	"reflect"
 	"strings"
 	"testing"
@@ -146,7 +148,111 @@ func countCase(st *verifkit.Stats, spec *gen.Type, in *gen.Input) {
 
 // ---------------------------------------------------------------- JSON family of routes
 
-func jsonRoutes(fatal failf, st *verifkit.Stats, spec *gen.Type, in *gen.Input, recase int) {
+var caseNames = []string{"as-tag", "UPPER", "lower", "mixed"}
+
+// recaseFn re-spells a struct key in the given case variant (mixed alternates which
+// letters are capitals from key to key).
+func recaseFn(mode int) func(string) string {
+	n := 0
+	return func(k string) string {
+		switch mode {
+		case 1:
+			return strings.ToUpper(k)
+		case 2:
+			return strings.ToLower(k)
+		case 3:
+			n++
+			b := []byte(strings.ToLower(k))
+			for i := range b {
+				if (i+n)%2 == 0 && b[i] >= 'a' && b[i] <= 'z' {
+					b[i] -= 'a' - 'A'
+				}
+			}
+			return string(b)
+		}
+		return k
+	}
+}
+
+// confRoutes runs the configuration-loader routes: LoadFromJsonBytes, LoadFromYamlBytes,
+// LoadFromTomlBytes and (viaFile in 1..3) conf.Load on a .json/.yaml/.toml file.
+func confRoutes(fatal failf, st *verifkit.Stats, spec *gen.Type, in *gen.Input, doc map[string]any,
+	mode int, dir string, viaFile int) {
+	folded, ok := gen.FoldDoc(spec, doc)
+	if !ok {
+		st.Class("conf:ambiguous-keys")
+		return
+	}
+	st.Class("conf:case:" + caseNames[mode])
+	st.Class(fmt.Sprintf("conf:struct-nesting-supplied:%d", gen.ReachedNesting(spec, folded)))
+	recased := doc
+	if mode > 0 {
+		recased = gen.RecaseDoc(spec, doc, recaseFn(mode))
+	}
+	foldedText := gen.RenderJSON(folded)
+	jsonText := gen.RenderJSON(recased)
+	oracle := map[string]map[string]any{"json": folded}
+
+	judge(fatal, st, spec, in, "conf", oracle, true,
+		bytesRoute(jsonText, func(b []byte, p any) error { return conf.LoadFromJsonBytes(b, p) }))
+
+	// through a format converter the numbers may be re-spelled: the oracle reads the
+	// converter's output (folded), the accept/reject expectation holds when it is lossless
+	viaConverter := func(route, text string, convert func([]byte) ([]byte, error),
+		load func([]byte, any) error) (map[string]map[string]any, bool, bool) {
+		conv, err := convert([]byte(text))
+		if err != nil {
+			st.Class(route + ":unconvertible")
+			return nil, false, false
+		}
+		d, err := gen.DecodeJSON(conv)
+		if err != nil {
+			return nil, false, false
+		}
+		m, ok := d.(map[string]any)
+		if !ok {
+			return nil, false, false
+		}
+		fm, ok := gen.FoldDoc(spec, m)
+		if !ok {
+			return nil, false, false
+		}
+		docs := map[string]map[string]any{"json": fm}
+		lossless := gen.RenderJSON(fm) == foldedText
+		judge(fatal, st, spec, in, route, docs, lossless, bytesRoute(text, load))
+		return docs, lossless, true
+	}
+	yamlDocs, yamlLossless, yamlOK := viaConverter("confyaml", jsonText, encoding.YamlToJson,
+		func(b []byte, p any) error { return conf.LoadFromYamlBytes(b, p) })
+	tomlText, tomlRenderable := gen.RenderTOML(recased)
+	var tomlDocs map[string]map[string]any
+	var tomlLossless, tomlOK bool
+	if tomlRenderable {
+		tomlDocs, tomlLossless, tomlOK = viaConverter("conftoml", tomlText, encoding.TomlToJson,
+			func(b []byte, p any) error { return conf.LoadFromTomlBytes(b, p) })
+	}
+
+	// conf.Load on a file
+	fileRoute := func(name, text string, docs map[string]map[string]any, expect bool) {
+		path := filepath.Join(dir, name)
+		judge(fatal, st, spec, in, "confload", docs, expect, func() (func(any) error, []any) {
+			if err := os.WriteFile(path, []byte(text), 0o600); err != nil {
+				panic(err)
+			}
+			return func(p any) error { return conf.Load(path, p) }, nil
+		})
+	}
+	switch {
+	case viaFile == 1:
+		fileRoute("c.json", jsonText, oracle, true)
+	case viaFile == 2 && yamlOK:
+		fileRoute("c.yaml", jsonText, yamlDocs, yamlLossless)
+	case viaFile == 3 && tomlOK:
+		fileRoute("c.toml", tomlText, tomlDocs, tomlLossless)
+	}
+}
+
+func jsonRoutes(fatal failf, st *verifkit.Stats, spec *gen.Type, in *gen.Input, recase int, dir string, viaFile int) {
 	doc := in.Docs["json"]
 	docs := map[string]map[string]any{"json": doc}
 	text := gen.RenderJSON(doc)
@@ -162,28 +268,10 @@ func jsonRoutes(fatal failf, st *verifkit.Stats, spec *gen.Type, in *gen.Input, 
 		return func(p any) error { return mapping.UnmarshalJsonMap(native, p) }, []any{native}
 	})
 
-	// 3. configuration loader (lower-cases keys, canonical-key code path)
-	confText := text
-	if recase > 0 {
-		n := 0
-		confText = gen.RenderJSON(gen.RecaseDoc(spec, doc, func(k string) string {
-			n++
-			switch (recase + n) % 3 {
-			case 0:
-				return strings.ToUpper(k)
-			case 1:
-				return strings.ToLower(k)
-			}
-			return k
-		}))
-	}
-	// the loader matches keys case-insensitively: the oracle reads the folded document
-	if folded, ok := gen.FoldDoc(spec, doc); ok {
-		judge(fatal, st, spec, in, "conf", map[string]map[string]any{"json": folded}, true,
-			bytesRoute(confText, func(b []byte, p any) error { return conf.LoadFromJsonBytes(b, p) }))
-	} else {
-		st.Class("conf:ambiguous-keys")
-	}
+	// 3. configuration loader: keys are matched case-insensitively.  The struct keys of
+	// the document (not the map keys) are re-spelled in the drawn case variant; the
+	// oracle keeps judging the supplied values by field (folded document).
+	confRoutes(fatal, st, spec, in, doc, recase, dir, viaFile)
 
 	// 3b. conf.FillDefault (fill-default mode, no document): outside the quantifier for
 	// validation, but it hands out the same defaults: no panic, declared defaults held,
@@ -262,8 +350,10 @@ func TestVerifC08Json(t *testing.T) {
 	defer st.Flush()
 	cfg := exclusions(st)
 	cfg.Mode = "json"
+	dir := t.TempDir()
 	rapid.Check(t, func(t *rapid.T) {
 		spec := gen.GenStruct(t, cfg)
+		st.Class(fmt.Sprintf("struct-nesting:%d", spec.StructNesting()))
 		for s := range spec.Shapes() {
 			st.Class("shape:" + s)
 		}
@@ -271,7 +361,8 @@ func TestVerifC08Json(t *testing.T) {
 		for i := 0; i < n; i++ {
 			in := gen.GenInput(t, spec, drawMode(t))
 			countCase(st, spec, in)
-			jsonRoutes(t.Fatalf, st, spec, in, rapid.IntRange(0, 3).Draw(t, "recase"))
+			jsonRoutes(t.Fatalf, st, spec, in, rapid.IntRange(0, 3).Draw(t, "recase"), dir,
+				rapid.IntRange(0, 7).Draw(t, "viaFile"))
 		}
 	})
 }
